@@ -12,6 +12,7 @@ import (
 	"github.com/deckhouse/deckhouse/pkg/log"
 
 	kem "github.com/flant/shell-operator/pkg/kube_events_manager"
+	kemtypes "github.com/flant/shell-operator/pkg/kube_events_manager/types"
 	metricstorage "github.com/flant/shell-operator/pkg/metric_storage"
 )
 
@@ -102,7 +103,46 @@ func (e *c02Env) snap(m *c02Mon) bool {
 	}
 	e.c.Op(fmt.Sprintf("snap %d", m.spec.id), got)
 	e.c.Oracle(fmt.Sprintf("snap %d got=%s", m.spec.id, got))
+	if m.spec.flt > 0 {
+		// "each with the binding's filter applied": the documented result of the program, per object
+		e.c.Oracle(fmt.Sprintf("filt %d got=%s", m.spec.id, got))
+	}
 	return got == want
+}
+
+// c02Held: a snapshot an execution has read and keeps (a hook run holds the lists of its binding
+// contexts from UpdateSnapshots until the context file is written; admission / conversion requests,
+// other queues and the debug endpoint read the same binding meanwhile).
+type c02Held struct {
+	m     *c02Mon
+	list  []kemtypes.ObjectAndFilterResult
+	first string
+}
+
+// hold reads the binding's snapshot as an execution does and keeps the returned list. Only a read
+// that shows the quiet state is kept (the model then answers the same), nil otherwise.
+func (e *c02Env) hold(m *c02Mon) *c02Held {
+	mon := m.mgr.GetMonitor(m.id)
+	list := mon.Snapshot()
+	first := c02RenderSnap(list, m.spec.flt > 0)
+	if first != e.cl.wantSnap(m.spec) {
+		return nil
+	}
+	e.c.Op(fmt.Sprintf("hold %d", m.spec.id), first)
+	return &c02Held{m: m, list: list, first: first}
+}
+
+// lookAgain: the execution looks at the list it holds once more — after the cluster has changed and
+// other readers have taken snapshots of the same binding. It must read what it read before.
+func (e *c02Env) lookAgain(h *c02Held) bool {
+	again := c02RenderSnap(h.list, h.m.spec.flt > 0)
+	e.c.Op(fmt.Sprintf("held %d", h.m.spec.id), again)
+	e.c.Oracle(fmt.Sprintf("held %d first=%s again=%s", h.m.spec.id, h.first, again))
+	e.c.Note("held:looked-again")
+	if h.first != "-" {
+		e.c.Note("held:non-empty")
+	}
+	return again == h.first
 }
 
 // matchingNow: keys of the objects matching the binding right now, plus the matching namespaces.
@@ -134,6 +174,9 @@ func (e *c02Env) stop(m *c02Mon) {
 
 func c02RandSpec(rng *Rng, id int) c02MonSpec {
 	s := c02MonSpec{id: id, kind: rng.Range(1, 2), keep: rng.Bool(), flt: rng.Intn(3)}
+	if s.flt == 1 {
+		s.prog = c02GenProg(rng)
+	}
 	pickSome := func(n, max int) []int { _ = n; return c02PickList(rng, max) }
 	switch rng.Intn(6) {
 	case 0: // whole cluster
@@ -221,6 +264,9 @@ func (s c02MonSpec) bucket() string {
 		}
 	}
 	b = append(b, fmt.Sprintf("flt%d", s.flt))
+	if s.flt == 1 {
+		b = append(b, s.theProg().bucket())
+	}
 	return strings.Join(b, "+")
 }
 
@@ -418,11 +464,18 @@ func c02MonitorCase(c *Case, rng *Rng, spec c02MonSpec, withGap bool, nops int) 
 	e.setActive([]*c02Mon{m})
 	ok := e.snap(m) // the Synchronization point
 	for i := 0; ok && i < nops; i++ {
+		var held *c02Held
+		if rng.Chance(45) {
+			held = e.hold(m) // an execution keeps what it read while the cluster moves on
+		}
 		burst := rng.Range(1, 3)
 		for j := 0; j < burst; j++ {
 			h.randomOp(spec.kind, false)
 		}
-		ok = e.snap(m)
+		ok = e.snap(m) // the other readers of the binding
+		if held != nil && c.Inconcl == "" {
+			ok = e.lookAgain(held) && ok
+		}
 	}
 	if ok && rng.Chance(50) {
 		// restart: a fresh manager and monitor over the same cluster must show the same objects
